@@ -203,7 +203,15 @@ func main() {
 				cmd := exec.Command(bin, "-prop", prop, "-seed", fmt.Sprint(seed), "-tier", tier,
 					"-start", fmt.Sprint(idx), "-stride", fmt.Sprint(workers), "-budget", chunk.String(),
 					"-outdir", rpdir, "-maxviol", "4")
-				cmd.Env = append(os.Environ(), "GOMAXPROCS=2", "GORACE=halt_on_error=0 exitcode=0")
+				rl := fmt.Sprintf("/dev/shm/verif-race-%d-%d", os.Getpid(), w)
+				cmd.Env = append(os.Environ(), "GOMAXPROCS=1", "GORACE=halt_on_error=0 exitcode=0 log_path="+rl, "VERIF_RACELOG="+rl)
+				defer func() {
+					if ms, _ := filepath.Glob(rl + ".*"); ms != nil {
+						for _, m := range ms {
+							os.Remove(m)
+						}
+					}
+				}()
 				stdout, _ := cmd.StdoutPipe()
 				var stderr strings.Builder
 				cmd.Stderr = &stderr
@@ -415,7 +423,7 @@ func report(prop, tier string, seed uint64, pi propInfo, lines []line, start tim
 			final = keep
 			// minimise in a fresh process (bounded)
 			cmd := exec.Command(bin, "-minimise", keep, "-minout", min, "-budget", "60s")
-			cmd.Env = append(os.Environ(), "GOMAXPROCS=2")
+			cmd.Env = append(os.Environ(), "GOMAXPROCS=1")
 			if out, err := cmd.CombinedOutput(); err == nil {
 				if _, serr := os.Stat(min); serr == nil {
 					final = min
